@@ -120,3 +120,9 @@ cfg("MC_exec_sim3.cfg", exec_consts(FieldAlpha="<- AlphaAll", Aliases='= {"", "z
 
 # ---- C18: envelope (operation selection x variables matrix; one request per behaviour) ---------
 cfg("MC_env.cfg", cache_consts(Capacity="= 99", MaxLen="= 1", ReqPool="<- PoolEnv"), CACHE_INV, spec="SpecE")
+
+# ---- C04 / C05: input coercion cells, split by type index ranges ---------------------------------
+for mode, inv in (("vars", ["R1_Vars", "EmitVars"]), ("ways", ["R1_Ways", "EmitWays"])):
+    for part, (lo, hi) in enumerate([(1, 16), (17, 32), (33, 44), (45, 52), (53, 60), (61, 99)]):
+        cfg("MC_%s_%d.cfg" % (mode, part), {"MODE": '= "%s"' % mode, "TLO": "= %d" % lo, "THI": "= %d" % hi}, inv)
+cfg("MC_pairs.cfg", {"MODE": '= "pairs"', "TLO": "= 1", "THI": "= 1"}, ["R1_Pairs", "EmitPairs"])
